@@ -55,6 +55,11 @@ def random_record(rng, fmt):
         lat = 0.0
     if rng.random() < 0.06:
         lon = 0.0
+    # ... and so are the ends of the coordinate ranges: the date line written as +180 or -180, the poles
+    if rng.random() < 0.07:
+        lon = rng.choice([180.0, -180.0])
+    if rng.random() < 0.04:
+        lat = rng.choice([90.0, -90.0])
     return {'y': y, 'mo': mo, 'd': d, 'h': h, 'mi': mi, 's': s, 'ms': ms, 'off': off, 'lon': lon, 'lat': lat, 'dep': dep, 'mag': mag}
 
 
